@@ -170,7 +170,7 @@ def run_shard(cid):
         mk, ct = CONTEXTS[cid]
         for fid, decl, we, re_, rk in forms:
             # every wrapper for the core forms, the bare placement for the rest (the product stays small)
-            wrs = WRAPPERS if (fid.startswith(("assign", "post", "pre", "call-", "fn-assign=", "ref-param")) or fid in CORE_FORMS) else WRAPPERS[:1]
+            wrs = WRAPPERS if (engine.tier() == "thorough" or fid.startswith(("assign", "post", "pre", "call-", "fn-assign=", "ref-param")) or fid in CORE_FORMS) else WRAPPERS[:1]
             for wid, wr in wrs:
                 tag = fid if wid == "bare" else fid + "@" + wid
                 if we is not None:
